@@ -6,7 +6,7 @@ META = {
     "technique": "static analysis: provenance of the noise term and jump operators through the noisy driver, "
                  "loop-order vs. tensor-layout agreement of the jump candidates, event order after a jump; polynomial normal form of the jump gap and noise term; provenance of the noise model",
     "design_ref": "DESIGN.md §5 C17",
-    "explanation": "ROLE-noise: lindblad_ops = SequenceData.lindblad_ops; lindblad_noise = "
+    "explanation": "APPLY-op: the jump operator is applied by MPS.apply with its column index contracted (not its transpose: the relaxation jump |g><r| would become an excitation). ROLE-noise: lindblad_ops = SequenceData.lindblad_ops; lindblad_noise = "
                    "compute_noise_from_lindbladians(ops, dim) is computed before the Hamiltonian is filled and is "
                    "the noise= argument of every evolution update_H, zero in update_H_no_noise which precedes "
                    "fill_results; aggregated_lindblad_ops = stack(L)† @ stack(L); the random.choices candidate "
